@@ -146,6 +146,44 @@ def check_spec(spec: NetSpec, label, st: Stats, plan):
                 for sig, msg in balances(spec, val, nxt, P["T"]):
                     problems.append((sig, f"numpy (network edited in place after a step): {msg}", case))
                 st.inc("balances_checked", 1 + spec.n)
+        if full:
+            # element-by-element stepping through the per-element API, in the network's own enumeration order (links BEFORE
+            # origins), twice on the same objects: the balances of the SECOND step
+            from ..harness import np_manual_steps
+            for vlabel, val in valgen.vectors(spec, 0):
+                if not finite(val):
+                    continue
+                st.inc("executions", 2)
+                other = valgen.base_vector(spec, 1 if vlabel == "base0" else 0)
+                case = {"spec": spec.describe(), "config": label, "P": P, "val": {f"{k[0]}.{k[1]}": v for k, v in val.items()},
+                        "engine": "numpy", "manual": True}
+                try:
+                    nxt, _ = np_manual_steps(spec, [other, val], P)
+                except Exception as e:  # noqa: BLE001
+                    problems.append((f"C02/exception/{exc_site(e)}/{type(e).__name__}", f"numpy (element-by-element): {exc_text(e)}", case))
+                    break
+                for sig, msg in balances(spec, val, nxt, P["T"]):
+                    problems.append((sig, f"numpy (element-by-element stepping, second step): {msg}", case))
+                st.inc("balances_checked", 1 + spec.n)
+            # turn rates given as NumPy arrays (length-1 and 0-d) instead of plain numbers; two steps of the same objects
+            if any(len(spec.out_links(n)) > 1 for n in range(spec.n)):
+                for form in ("1d", "0d"):
+                    ov = {(f"L{m}", "beta"): (np.array([float(l.beta)]) if form == "1d" else np.array(float(l.beta)))
+                          for m, l in enumerate(spec.links)}
+                    case = {"spec": spec.describe(), "config": label, "P": P, "engine": "numpy", "array_turnrates": form}
+                    try:
+                        b_ = build(spec, override=ov)
+                        for vlabel, val in list(valgen.vectors(spec, 0)) * 2:
+                            if not finite(val):
+                                continue
+                            st.inc("executions")
+                            nxt = np_step(spec, val, P, built=b_)[0]
+                            for sig, msg in balances(spec, val, nxt, P["T"]):
+                                problems.append((sig, f"numpy (turn rates given as {form} arrays, repeated steps): {msg}",
+                                                 dict(case, val={f"{k[0]}.{k[1]}": v for k, v in val.items()})))
+                            st.inc("balances_checked", 1 + spec.n)
+                    except Exception as e:  # noqa: BLE001
+                        problems.append((f"C02/exception/{exc_site(e)}/{type(e).__name__}", f"numpy (array turn rates): {exc_text(e)}", case))
         for sym in plan["cs_sym"]:
             st.inc("transitions", 2)
             try:
@@ -228,7 +266,16 @@ def replay(case):
     spec = NetSpec.from_json(case["spec"])
     P = case["P"]
     val = {tuple(k.split(".")): [float(x) for x in v] for k, v in case["val"].items()}
-    if case.get("engine", "numpy") == "numpy":
+    if case.get("manual"):
+        from ..harness import np_manual_steps
+        nxt, _ = np_manual_steps(spec, [valgen.base_vector(spec, 1), val], P)
+    elif case.get("array_turnrates"):
+        form = case["array_turnrates"]
+        ov = {(f"L{m}", "beta"): (np.array([float(l.beta)]) if form == "1d" else np.array(float(l.beta))) for m, l in enumerate(spec.links)}
+        b_ = build(spec, override=ov)
+        for _ in range(3):
+            nxt = np_step(spec, val, P, built=b_)[0]
+    elif case.get("engine", "numpy") == "numpy":
         nxt, built, raw = np_step(spec, val, P, built=(build_edited(spec, P, case["edited"] if isinstance(case.get("edited"), str) else "links") if case.get("edited")
                                                         else build(spec, touch=bool(case.get("touch")))))
     else:
